@@ -283,6 +283,9 @@ def pair_future(ctx, rep):
             continue
         incs = [e for e in p.calls() if q.call_name(e) == "inc" and name_of_metric(q.recv(e)) == "FUTURE_INPROGRESS"]
         rep.ob("R-PAIR-F", "track_future: FUTURE_INPROGRESS inc once", len(incs) == 1, "found %d" % len(incs), where_of(tf), trace_of(p))
+        # "futures created" is counted here: once per tracked future, before anything can complete it
+        tot = [e for e in p.calls() if q.call_name(e) == "inc" and name_of_metric(q.recv(e)) == "FUTURE_TOTAL"]
+        rep.ob("R-COUNTER", "track_future: FUTURE_TOTAL inc once per tracked future", len(tot) == 1 and not tot[0].d["args"], "FUTURE_TOTAL.inc() x%d on a path of track_future: the counter of futures created no longer equals the number of futures handed out" % len(tot), where_of(tf), trace_of(p))
         regs = [e for e in p.calls() if q.call_name(e) == "add_done_callback" and q.recv(e) == F]
         rep.ob("R-PAIR-F", "track_future: registers one done-callback on the future", len(regs) == 1, "found %d registrations" % len(regs), where_of(tf), trace_of(p))
         rep.ob("R-PAIR-F", "track_future: returns its argument", p.value == F, "track_future must return the future it was given", where_of(tf))
